@@ -110,6 +110,17 @@ def checkOp (g : Guard) (o : Op) : Option Violation :=
         | some a => some ⟨.attWrite a, k⟩
         | none => none
 
+/-- `FootprintGuard::check_op_in` (what `execute_item_enforced` runs on every emitted op, `st` = the
+    pre-state store of the guard's warp): `check_op`, then the previous source of an edge the op
+    moves (`moved_edge_previous_source`) must be a declared node write too. -/
+def checkOpIn (g : Guard) (st : Store) (o : Op) : Option Violation :=
+  match checkOp g o with
+  | some v => some v
+  | none =>
+    match movedPrev g.warp st o with
+    | some n => if n ∈ g.nodesWrite then none else some ⟨.nodeWrite n, opKindStr o.tag⟩
+    | none => none
+
 /-! ### the interpreter rule -/
 
 inductive Cond where
@@ -152,11 +163,11 @@ def exec (g : Guard) (st : Store) : List Instr → List Op → List Op × Option
     | none => if c.eval st then exec g st rest (acc ++ [o]) else exec g st rest acc
   | .panic :: _, acc => (acc, some .userPanic)
 
-def firstBadOp (g : Guard) : List Op → Option Violation
+def firstBadOp (g : Guard) (st : Store) : List Op → Option Violation
   | [] => none
-  | o :: os => match checkOp g o with
+  | o :: os => match checkOpIn g st o with
     | some v => some v
-    | none => firstBadOp g os
+    | none => firstBadOp g st os
 
 inductive ItemResult where
   | ok (ops : List Op)
@@ -174,7 +185,7 @@ def ItemResult.isOk : ItemResult → Bool
 /-- `execute_item_enforced` for one item. -/
 def runItem (g : Guard) (st : Store) (prog : List Instr) : ItemResult :=
   let r := exec g st prog []
-  match r.2, firstBadOp g r.1 with
+  match r.2, firstBadOp g st r.1 with
   | none, none => .ok r.1
   | some (.readViolation v), none => .violation v false
   | some .userPanic, none => .panicked
@@ -264,6 +275,20 @@ def instWarps (o : Op) : List Nat :=
 
 def covered (o : Op) (l : Loc) : Bool :=
   covers (opTargets o) l || (instWarps o).contains l.warp
+
+/-- The state-dependent target: the outgoing adjacency of the previous source of a moved edge. -/
+def movedAdj (s : WState) (o : Op) (l : Loc) : Bool :=
+  match l with
+  | .adj w n =>
+    match s.store? w with
+    | some st => movedPrev w st o == some n
+    | none => false
+  | _ => false
+
+/-- Attribution used by enforcement on the pre-state `s`: `op_write_targets` (instance-level ops at
+    instance granularity) plus `moved_edge_previous_source`. -/
+def coveredIn (s : WState) (o : Op) (l : Loc) : Bool :=
+  covered o l || movedAdj s o l
 
 end Guard
 end EchoVerif
